@@ -46,7 +46,7 @@ def run(ctx):
     pp = os.path.join(wd, "pieces.ndjson")
     write_ndjson(pp, withp)
     pv = os.path.join(wd, "variants.ndjson")
-    ctx.run_vh("relayout", pp, pv, ctx.seed, 4 if quick else 40)
+    ctx.run_vh("relayout", pp, pv, ctx.seed, 4 if quick else 10)   # whole-file re-scans by the Lexer model are the expensive part: 40 per base ran into the TLC timeout once the bases had grown
     variants = read_ndjson(pv)
     allc = [dict(b, src=b["text"]) for b in bases] + [dict(v, src=v["text"]) for v in variants]
     pa, po = os.path.join(wd, "all.ndjson"), os.path.join(wd, "outcomes.ndjson")
@@ -76,7 +76,7 @@ def run(ctx):
     pg = os.path.join(wd, "gvariants.ndjson")
     write_ndjson(pg, [{"id": v["id"], "text": v["text"], "mode": "variant", "basetoks": segs[v["base"]]["canon"],
                        "baseobs": outc[v["base"]], "obs": outc[v["id"]]} for v in glob])
-    gver, _ = ctx.tlc("Layout", cfg="LayoutV.cfg", workdir=ctx.sub("tlc-gvariants"), files=[(pg, "cases.ndjson")], timeout=3000)
+    gver, _ = ctx.tlc("Layout", cfg="LayoutV.cfg", workdir=ctx.sub("tlc-gvariants"), files=[(pg, "cases.ndjson")], timeout=6000)
     gpres = {v["id"]: v["preserved"] for v in gver}
     texts = {v["id"]: v for v in variants}
     vs = []
